@@ -1,6 +1,7 @@
 /* c15_cont: PHashTable against a pointer-identity map model, PList against an array model (C15).
  * Built with ASan+UBSan (-fno-sanitize-recover): any UB for some pointer bit pattern aborts the run. */
 #include <plibsys.h>
+#include <pthread.h>
 #include <limits.h>
 #include "vh.h"
 
@@ -198,6 +199,13 @@ static void run_list(vh_rng *r, long long ops) {
 	}
 }
 
+/* progress watchdog: a cycle in a bucket chain or in a list makes a library call loop for ever */
+static void *cont_wd(void *a) {
+	long long last = -1; int idle = 0; (void)a;
+	for (;;) { long long p; sleep(1); p = __atomic_load_n(&st_ops, __ATOMIC_RELAXED) + __atomic_load_n(&sl_ops, __ATOMIC_RELAXED) + __atomic_load_n(&st_full, __ATOMIC_RELAXED);
+		if (p != last) { last = p; idle = 0; } else if (++idle >= 30) { viol("never-returns", "no container operation finished for 30 s: a %s call does not return", cur_op); fflush(stdout); _exit(0); } }
+	return NULL;
+}
 int main(int argc, char **argv) {
 	vh_rng r; double t0 = vh_now(); int i;
 	const char *mode = vh_arg(argc, argv, "--mode", "table");
@@ -205,6 +213,7 @@ int main(int argc, char **argv) {
 	vh_seed(&r, (uint64_t)vh_argi(argc, argv, "--seed", 1) * 2654435761u + (mode[0] == 'l'));
 	(void)max_chain;
 	p_libsys_init();
+	{ pthread_t wd; pthread_create(&wd, NULL, cont_wd, NULL); }
 	if (!strcmp(mode, "table")) run_table(&r, ops); else run_list(&r, ops);
 	p_libsys_shutdown();
 	printf("{\"ev\":\"stats\",\"mode\":\"%s\",\"ops\":%lld,\"tables\":%lld,\"insert_new\":%lld,\"overwrite\":%lld,\"remove_hit\":%lld,\"remove_miss\":%lld,"
